@@ -1259,3 +1259,11 @@ mut("c18-lock-leak-root", ["C18"], [(N, '''	sp.mtxSubscribers.Lock()
 mut("c05-fetch-without-mutex", ["C05"], [(Q, '''	s.mtxCFilter.Lock()
 	defer s.mtxCFilter.Unlock()
 ''', '')], ["C05.P1"])
+
+# ---- rename / reshape refactors that must stay quiet ----
+mut("quiet-rename-semaphore", ["C15", "C17"], [(PB, "rebroadcastSem", "sem", "all")], [])
+mut("quiet-rename-noprogress", ["C05", "C06"], [(Q, "noProgress", "nothingYet", "all")], [])
+mut("quiet-rename-reply-field", ["C17"], [("notifications.go", "reply:", "answer:", "all"), ("notifications.go", "msg.reply", "msg.answer", "all"), ("notifications.go", "	reply ", "	answer ", "all")], [])
+mut("quiet-rename-locals-headers", ["C01", "C02", "C04", "C08", "C18"], [(BM, "headerWriteBatch", "batch", "all"), (BM, "knownWork", "kw", "all"), (BM, "totalWork", "tw", "all")], [])
+mut("quiet-rename-bestpeer", ["C04"], [(BM, "bestPeer", "candidate", "all")], [])
+mut("quiet-rename-errchan-rescan", ["C17"], [(RS, "	errChan := make(chan error, 1)\n\n	if !atomic", "	done := make(chan error, 1)\n	errChan := done\n\n	if !atomic")], [])
